@@ -158,7 +158,7 @@ func drawC19(t *rapid.T, dir string, toolQuote map[string][]byte) *c19Case {
 		return p
 	}
 	// ---- quote ----
-	quoteKind := pick("quote", []string{"valid", "valid", "valid", "valid", "forged", "unparsable", "empty", "intel-sample"})
+	quoteKind := pick("quote", []string{"valid", "valid", "valid", "valid", "forged", "forged-and-re-signed", "unparsable", "empty", "intel-sample"})
 	raw := w.Raw
 	rootIsA := true
 	switch quoteKind {
@@ -167,6 +167,26 @@ func drawC19(t *rapid.T, dir string, toolQuote map[string][]byte) *c19Case {
 		raw[48+s.Intn(584)] ^= 1 << uint(s.Intn(8))
 		q, _ = gen.RefParse(raw)
 		c.fault(clsVerify, "forged quote")
+	case "forged-and-re-signed":
+		// one of the forgeries of the signature-link catalogue: built with the keys the forger has (its own attestation
+		// key, the PCK key of this world), every signature it can make is made - one link does not hold
+		var rej []forgery
+		for _, f := range c01Forgeries {
+			if f.expect == "reject" {
+				rej = append(rej, f)
+			}
+		}
+		f := rej[s.Intn(len(rej))]
+		fq := w.Q.Clone()
+		f.apply(w, fq, s)
+		raw = fq.Encode()
+		if pq, err := gen.RefParse(raw); err == nil {
+			q = pq
+			c.fault(clsVerify, "forged quote ("+f.name+")")
+		} else {
+			c.parse12 = true
+			c.desc = append(c.desc, "forged quote that does not parse ("+f.name+")")
+		}
 	case "unparsable":
 		raw = s.Bytes(1300)
 		raw[0] = 9
@@ -181,7 +201,7 @@ func drawC19(t *rapid.T, dir string, toolQuote map[string][]byte) *c19Case {
 		q, _ = gen.RefParse(raw)
 		rootIsA = false
 	}
-	if leafTime != "wide" && (quoteKind == "valid" || quoteKind == "forged") {
+	if leafTime != "wide" && (quoteKind == "valid" || quoteKind == "forged" || quoteKind == "forged-and-re-signed") {
 		c.nearNow = true
 		c.desc = append(c.desc, "leaf:"+leafTime, "TZ="+c.tz)
 		if leafTime == "expired-3h-ago" || leafTime == "valid-from-3h-ahead" {
@@ -1055,8 +1075,54 @@ func TestC19(t *testing.T) {
 		c.args = []string{"-inform=bin", "-in=" + wr("quote.dat", w.Raw), "-trusted_roots=" + wr("roots.pem", pA.Root.PEM)}
 		want := 0
 		what := ""
-		settingKind := rapid.SampledFrom([]string{"numeric", "numeric", "allow-list", "allow-list", "tee-tcb-svn", "separate-argument", "roots-flag-naming-no-file", "retry-settings"}).Draw(t, "setting")
-		if settingKind == "tee-tcb-svn" {
+		settingKind := rapid.SampledFrom([]string{"numeric", "numeric", "allow-list", "allow-list", "tee-tcb-svn", "separate-argument", "roots-flag-naming-no-file", "retry-settings", "rtmrs-flag-over-config", "rtmrs-flag-over-config"}).Draw(t, "setting")
+		if settingKind == "rtmrs-flag-over-config" {
+			// the -rtmrs flag REPLACES the config's rtmrs list as a whole: an empty entry of the flag leaves its register
+			// unchecked, whatever the config says about that register
+			all := [][]byte{w.Q.Rtmr[0][:], w.Q.Rtmr[1][:], w.Q.Rtmr[2][:], w.Q.Rtmr[3][:]}
+			k := rapid.IntRange(0, 3).Draw(t, "register")
+			cfgList := [][]byte{append([]byte{}, all[0]...), append([]byte{}, all[1]...), append([]byte{}, all[2]...), append([]byte{}, all[3]...)}
+			cfgWrongAtK := rapid.Bool().Draw(t, "configWrongAtRegister")
+			if cfgWrongAtK {
+				cfgList[k][s.Intn(48)] ^= byte(1 + s.Intn(255))
+			}
+			cfg := &ccpb.Config{Policy: &ccpb.Policy{HeaderPolicy: &ccpb.HeaderPolicy{}, TdQuoteBodyPolicy: &ccpb.TDQuoteBodyPolicy{Rtmrs: cfgList}}}
+			if rapid.Bool().Draw(t, "text") {
+				b, _ := prototext.Marshal(cfg)
+				c.args = append(c.args, "-config="+wr("config.textproto", b))
+			} else {
+				b, _ := proto.Marshal(cfg)
+				c.args = append(c.args, "-config="+wr("config.pb", b))
+			}
+			flagKind := rapid.SampledFrom([]string{"absent", "empty-at-register", "empty-at-register", "only-register", "wrong-at-another-register", "all-empty"}).Draw(t, "rtmrsFlag")
+			parts := []string{hex.EncodeToString(all[0]), hex.EncodeToString(all[1]), hex.EncodeToString(all[2]), hex.EncodeToString(all[3])}
+			switch flagKind {
+			case "absent":
+				if cfgWrongAtK {
+					want = 4
+				}
+			case "empty-at-register":
+				parts[k] = ""
+				c.args = append(c.args, "-rtmrs="+strings.Join(parts, ","))
+			case "only-register":
+				for i := range parts {
+					if i != k {
+						parts[i] = ""
+					}
+				}
+				c.args = append(c.args, "-rtmrs="+strings.Join(parts, ","))
+			case "wrong-at-another-register":
+				o := (k + 1 + s.Intn(3)) % 4
+				wrong := append([]byte{}, all[o]...)
+				wrong[s.Intn(48)] ^= 0x10
+				parts[o], parts[k] = hex.EncodeToString(wrong), ""
+				c.args = append(c.args, "-rtmrs="+strings.Join(parts, ","))
+				want = 4
+			case "all-empty":
+				c.args = append(c.args, "-rtmrs=,,,")
+			}
+			what = fmt.Sprintf("config rtmrs (wrong at register %d: %v), -rtmrs flag %s", k, cfgWrongAtK, flagKind)
+		} else if settingKind == "tee-tcb-svn" {
 			// minimum_tee_tcb_svn is compared component by component, all sixteen of them, whatever kind of TDX module the
 			// quote comes from: the quote's value with ONE component raised is missed, with one lowered is met
 			k := rapid.IntRange(0, 15).Draw(t, "component")
